@@ -150,6 +150,10 @@ func PlusContents() []Content {
 		return J{"$ref": "#/definitions/sibTarget", "description": "sibling description", "properties": J{"x": J{"$ref": AuxA + "#/definitions/sibAux"}, "y": LocalRef("sibOther"), "z": simpleObj("sibInline")},
 			"allOf": []any{J{"$ref": "#/definitions/sibTarget/properties/id"}}}
 	})
+	add("danglingUnderSiblingOfRef", "plus-siblings", func(b *BundleSpec, s int) J {
+		b.Add(RootFile, P(simpleObj("sibOk"), "definitions", "sibOk"))
+		return J{"$ref": "#/definitions/sibOk", "properties": J{"p": J{"$ref": "sub/missing.json#/definitions/m"}, "q": J{"$ref": "#/definitions/nopeSibling"}}}
+	})
 	// dangling $refs
 	ptrTo("danglingLocalDefinition", "#/definitions/nope", nil)
 	ptrTo("danglingLocalPointer", "#/definitions/nope/properties/x", nil)
